@@ -19,3 +19,6 @@ def run(rep, tier, seed):
     real_sched.campaign_early_removal(rep, "C01", tier, seed, n=24 if tier == "quick" else 240)
     from harness.props import sim_tuner
     sim_tuner.campaign_tunerloop(rep, "C01", tier, seed)
+    # binding 3: the same generated behaviours on the real LocalBackend (lock-step puppet processes)
+    from harness.props import local_backend
+    local_backend.campaign(rep, "C01", tier, seed)
